@@ -7,6 +7,7 @@ HARNESSES = {
     'cq': dict(sources=['src/h_cq.cpp']),
     'remover': dict(sources=['src/h_remover.cpp']),
     'heter': dict(sources=['src/h_heter.cpp']),
+    'filter': dict(sources=['src/h_filter.cpp']),
     'anyid': dict(sources=['src/h_anyid.cpp']),
     'anydata': dict(sources=['src/h_anydata.cpp', 'src/h_anydata_m1.cpp', 'src/h_anydata_m24.cpp', 'src/h_anydata_m32.cpp', 'src/h_anydata_m64.cpp']),
 }
@@ -69,6 +70,9 @@ COMMON_ASSUME = [
 ]
 
 q, t = std_stages('cbl', 2500, 150000, fuzz_runs=1000000)
+# clang's native __GNUC__ == 4 selects the 'GCC 4 patch' version of CallbackList::operator(): a second build covers it
+q['stages'].append(dict(engine='rc', harness='cbl', variant='clang4', procs=8, cases=1200, timeout=900))
+t['stages'].append(dict(engine='rc', harness='cbl', variant='clang4', procs=16, cases=50000, timeout=3600))
 prop('C01', 'exploration',
      'rapidcheck-generated histories (<=80 ops) of append/prepend/insert/remove/ownsHandle/empty/invoke/forEach/forEachIf/'
      'hasListener/removeListener/hasAnyListener over live, stale, expired, empty and repeated handles, 4 prototypes x 8 policy configurations; '
@@ -78,6 +82,8 @@ prop('C01', 'exploration',
      q, t)
 
 q, t = multi_stages([('cbl', 2500, 100000), ('disp', 2000, 60000)], fuzz=[('cbl', 1000000)])
+q['stages'].append(dict(engine='rc', harness='cbl', variant='clang4', procs=8, cases=1200, timeout=900))
+t['stages'].append(dict(engine='rc', harness='cbl', variant='clang4', procs=16, cases=50000, timeout=3600))
 prop('C02', 'exploration',
      'rapidcheck-generated re-entrant programs: callbacks carry scripts (<=6 ops, nesting depth <=4, fuel 300 activations) that append/prepend/insert/'
      'remove (self, others, already removed), enumerate and re-invoke the list being invoked; lock-step comparison with a snapshot-filter model; '
@@ -194,7 +200,7 @@ prop('C14', 'exploration',
      COMMON_ASSUME + ['prototype lists are the three rows of the table', 'which of the matching prototypes a multi-prototype predicate examines is left open (only "never a foreign one, never twice, dispatch iff true")'],
      q, t)
 
-q, t = std_stages('anydata', 2000, 100000, enum=True)
+q, t = std_stages('anydata', 12000, 300000, enum=True)
 prop('C17', 'exploration',
      'type table P<N,kind>: N in {1,2,4,7,8,15,16,17,23,24,25,31,32,33,63,64,65,100,256} x kind in {trivial bytes, ledgered copy+move, ledgered move-only, shared_ptr holder} x AnyData capacities {1 (=16), 24, 32, 64}, '
      'so every capacity has N = M-1, M, M+1. Bounded-exhaustive: every (N, kind, capacity, construction form) with a fixed move/queue script (912 cases); random: generated chains of moves, reads and EventQueue round trips with '
@@ -203,13 +209,26 @@ prop('C17', 'exploration',
      COMMON_ASSUME + ['over-aligned types (alignment > 8) are outside the table', 'takeEvent/peekEvent are not generated: AnyData is not assignable, so QueuedEvent cannot be taken by value'],
      q, t)
 
-q, t = std_stages('anyid', 1500, 50000, enum=True)
+q, t = std_stages('anyid', 8000, 100000, enum=True)
 prop('C18', 'exploration',
      'AnyId<Digester, Storage> for Digester in {std::hash, hash mod 4 (forced collisions), constant} x Storage in {EmptyAnyStorage, opaque storage (neither == nor <), tagged value storage (both)}; value pool of 24 values over '
      'int/long/unsigned/char/bool/enum/std::string/user struct chosen to collide (int 5, long 5, unsigned 5, enum 5; equal strings; ""). Bounded-exhaustive: all 24^2 pairs and 24^3 triples per configuration '
      '(equivalence, strict weak order, incomparability classes == equality classes, equal ids hash equally, collisions stay distinct with value storage / ids equal iff digests equal without) and dispatch through std::map and '
      'std::unordered_map dispatchers against a linear-search model; random: generated law and dispatch cases; non-trivial = the case contains a digest collision between different values',
      COMMON_ASSUME + ['the value universe is the 24-value pool over 8 types'],
+     q, t)
+
+q, t = std_stages('filter', 3000, 150000)
+q['stages'].append(dict(engine='rc', harness='filter', variant='clang4', procs=8, cases=1200, timeout=900))
+t['stages'].append(dict(engine='rc', harness='filter', variant='clang4', procs=16, cases=50000, timeout=3600))
+prop('C12', 'exploration',
+     'rapidcheck-generated histories of appendFilter/removeFilter (also from inside filters and listeners), listener changes and dispatches, direct and queued, over 8 subjects: EventDispatcher by-value prototype, '
+     'EventQueue with reference prototype (only the second argument rewritable), MixinFilter followed / preceded by a counting user mixin, HeterEventDispatcher and HeterEventQueue with MixinHeterFilter, a canContinueInvoking '
+     'policy on void(Ev&), and argumentAdapter down-casts (Derived& from Base&, shared_ptr<Derived> from shared_ptr<Base>); listeners plain, conditionalFunctor-wrapped and argumentAdapter-wrapped (arithmetic conversions); '
+     'oracle = filter-chain model (insertion order, shared mutable arguments, first false stops filters and listeners of that dispatch only, removed filters never run) in lock-step with argument comparison at every filter, '
+     'condition and listener; non-trivial = (>=2 filters with a rewriting filter followed by a block) or a stop by canContinueInvoking or an adapter-wrapped listener',
+     COMMON_ASSUME + ['subjects are the 8 rows of the configuration table', 'routing uses the event computed before the filters run (rewriting the key argument does not re-route): filters only use the exclude-event form',
+                      'HeterEventQueue with MixinHeterFilter does not compile for queued dispatch (stored arguments are const): heterogeneous filters are exercised on direct dispatch only'],
      q, t)
 
 
